@@ -316,6 +316,7 @@ type c11Env struct {
 	faulty    *c11Faulty
 	qTimeout  int
 	base      int
+	watchdog  time.Duration
 	baseBumps int
 	held      int // deliveries parked at the gate when ingestion had finished, over all cases
 }
@@ -372,7 +373,7 @@ func (e *c11Env) baseline() int {
 
 // quiesce waits until every goroutine started since the baseline has finished or is parked at the gate.
 func (e *c11Env) quiesce(baseline int, parked *int32, extra func() bool) bool {
-	deadline := time.Now().Add(3 * time.Second)
+	deadline := time.Now().Add(10 * time.Second)
 	for i := 0; ; i++ {
 		if runtime.NumGoroutine()-int(atomic.LoadInt32(parked)) <= baseline && (extra == nil || extra()) {
 			return true
@@ -453,7 +454,7 @@ func (e *c11Env) run(k *c11Case) (string, error) {
 	ing := "ok"
 	select {
 	case <-done:
-	case <-time.After(10 * time.Second):
+	case <-time.After(e.watchdog):
 		// ingestion did not finish while the slow channels were held
 		ing = "blocked"
 		close(gate)
@@ -487,7 +488,7 @@ func (e *c11Env) run(k *c11Case) (string, error) {
 		}
 		defer func() {
 			// belt and braces: the implementation's own number of successes tells how many deliveries to expect
-			deadline := time.Now().Add(500 * time.Millisecond)
+			deadline := time.Now().Add(150 * time.Millisecond)
 			for !want() && time.Now().Before(deadline) {
 				time.Sleep(200 * time.Microsecond)
 			}
@@ -633,7 +634,10 @@ func runC11x(c *Ctx) error {
 		return err
 	}
 	defer s.Close()
-	env := &c11Env{c: c, s: s, faulty: faulty}
+	env := &c11Env{c: c, s: s, faulty: faulty, watchdog: 10 * time.Second}
+	if c.Only != "" {
+		env.watchdog = 3 * time.Second // replay / shrinking of one short history
+	}
 	seen := map[string]bool{}
 	do := func(k *c11Case, tag string) error {
 		line := k.Line()
